@@ -87,7 +87,8 @@ def run_scenario(args):
                 res["notes"].append("solver unknown on obligation %r" % (key,))
             res["obligations"].append(ob)
         # required obligations must have been generated at all (an assertion that is never reached proves nothing)
-        msgs = {o["msg"] for o in res["obligations"]}
+        msgs = {o["msg"] for o in res["obligations"]} | set(m.asserted)
+        res["asserted"] = sorted(m.asserted)
         for need in sc.get("expect_obligations", []):
             if need not in msgs:
                 res["status"] = "inconclusive"
